@@ -719,10 +719,15 @@ pfn2idx_map_end(struct pfn2idx_map *map, struct pfn2idx_range *range)
 	if (status != KDUMP_OK)
 		return status;
 
-	qsort(map->ranges, map->nranges, sizeof *map->ranges,
-	      pfn2idx_range_cmp);
-	qsort(map->singles, map->nsingles, sizeof *map->singles,
-	      pfn2idx_single_cmp);
+	/* The arrays are not allocated while they are empty, and a null
+	 * pointer is not a valid argument to qsort() even for zero elements.
+	 */
+	if (map->nranges)
+		qsort(map->ranges, map->nranges, sizeof *map->ranges,
+		      pfn2idx_range_cmp);
+	if (map->nsingles)
+		qsort(map->singles, map->nsingles, sizeof *map->singles,
+		      pfn2idx_single_cmp);
 
 	return KDUMP_OK;
 }
